@@ -34,7 +34,7 @@ FUNCS = [
 
 # matcher kinds (must match sim::MK in shape.hpp)
 MK = ['ANY', 'VAL', 'EQ', 'NE', 'LT', 'LE', 'GT', 'GE', 'NOTEQ', 'ANYOF', 'TYPEDANY',
-      'RINC2', 'RINC11', 'RIS', 'RSTART', 'RENDS', 'RPERM', 'RALL', 'RNONE', 'RANY', 'RNOTIS']
+      'RINC2', 'RINC11', 'RIS', 'RSTART', 'RENDS', 'RPERM', 'RALL', 'RNONE', 'RANY', 'RNOTIS', 'RENDS3']
 # with predicate kinds (sim::WK)
 WK = ['LE', 'GE', 'NE', 'EQ', 'LT12', 'NESNAP', 'LTMAC']
 # bounds forms (sim::BF)
@@ -82,7 +82,8 @@ def matcher_text(kind, argk, vi):
                 'RALL': 'trompeloeil::range_all_of(trompeloeil::ge(%s))' % v,
                 'RNONE': 'trompeloeil::range_none_of(%s)' % v,
                 'RANY': 'trompeloeil::range_any_of(%s)' % v,
-                'RNOTIS': '!trompeloeil::range_is(%s, %s + 1, %s)' % (v, v, v)}[kind]
+                'RNOTIS': '!trompeloeil::range_is(%s, %s + 1, %s)' % (v, v, v),
+                'RENDS3': 'trompeloeil::range_ends_with(%s, %s + 1, %s)' % (v, v, v)}[kind]
     if kind == 'VAL':
         return v
     if kind in ('EQ', 'NE', 'LT', 'LE', 'GT', 'GE'):
@@ -132,7 +133,7 @@ def gen_shape(rng, sid, fn, force=None):
         elif ak == 'str':
             kind = rng.choice(['ANY', 'VAL', 'EQ', 'NE', 'ANYOF', 'TYPEDANY'])
         elif ak == 'vec':
-            kind = rng.choice(['ANY', 'TYPEDANY', 'RINC2', 'RINC2', 'RINC11', 'RIS', 'RSTART', 'RENDS', 'RPERM', 'RALL', 'RNONE', 'RANY', 'RNOTIS', 'RNOTIS'])
+            kind = rng.choice(['ANY', 'TYPEDANY', 'RINC2', 'RINC2', 'RINC11', 'RIS', 'RSTART', 'RENDS', 'RPERM', 'RALL', 'RNONE', 'RANY', 'RNOTIS', 'RNOTIS', 'RENDS3'])
         elif ak in ('intref', 'cint'):
             kind = rng.choice(['ANY', 'VAL', 'EQ', 'NE', 'LT', 'GE', 'TYPEDANY'])
         else:
